@@ -52,7 +52,8 @@ var properties = map[string]*Property{
 			"continuous-check actions are exempt from the 'deferred checks come last' clause: block-level continuous checks are drained after the block's deferred checks by design"}),
 	"C02": eProp("C02", []eRun{{"VerifC02Conc", 1, 2, []string{"two sequences in flight"}}, {"VerifC02Seq", 0, 1, nil}},
 		[]string{"several plans on one Workstream (each plan has its own state-machine request; no shared limiter exists in the code)", "more than 3 (quick) / 4 (thorough) sequences per block"}),
-	"C03": eProp("C03", []eRun{{"VerifC03Conc", 1, 2, []string{"block failed by tolerance", "failures tolerated", "stopped at the exceeding failure"}}, {"VerifC03Seq", 0, 1, []string{"block failed by tolerance", "failures tolerated"}}},
+	"C03": eProp("C03", []eRun{{"VerifC03Conc", 1, 2, []string{"block failed by tolerance", "failures tolerated", "stopped at the exceeding failure"}}, {"VerifC03Seq", 0, 1, []string{"block failed by tolerance", "failures tolerated"}},
+		{"VerifC03CrashSeq", 0, 0, []string{"crash while the plan is durably Running", "block failed by tolerance", "failures tolerated"}}},
 		[]string{"the literal 'never started once exceeded' is asserted through its schedule-robust consequences (failed <= tol+Concurrency; exact stop with Concurrency 1): between a sequence's last plugin exit and the engine's failure count another admitted sequence may legitimately start"}),
 	"C04": eProp("C04", []eRun{{"VerifC04Seq", 0, 1, nil}, {"VerifC04PlanGroups", 1, 2, nil}, {"VerifC04BlockGroups", 1, 2, nil}, {"VerifC04Conc", 1, 2, nil}},
 		[]string{"the waiter protocol of execute.Plans.runPlan/Wait (checked by C12's harness); that Reason survives storage is C13's obligation", "several plans running concurrently"}),
@@ -92,7 +93,7 @@ var properties = map[string]*Property{
 	"C12": {
 		ID: "C12",
 		Runs: []Run{
-			{Dir: "c12", Pkg: "internal/execute", Fn: "VerifC12Race", P: [2]int{1, 2}, Ticks: [2]int{1, 1}, SwitchOn: []string{"yield:r", "lock"}, Needs: []string{"race explored"}},
+			{Dir: "c12", Pkg: "internal/execute", Fn: "VerifC12Race", P: [2]int{2, 3}, Ticks: [2]int{1, 1}, SwitchOn: []string{"yield:r", "lock"}, Needs: []string{"race explored"}},
 			{Dir: "c12", Pkg: "internal/execute", Fn: "VerifC12Repeat", P: [2]int{1, 2}, Ticks: [2]int{1, 1}, SwitchOn: []string{"yield:r", "lock"}, Needs: []string{"restart after finish rejected", "restart while starting explored"}},
 			{Dir: "c12", Pkg: "internal/execute", Fn: "VerifC12Stale", Needs: []string{"stale submission rejected", "fresh submission accepted", "boundary age accepted"}},
 			{Dir: "c12ws", Pkg: "", Fn: "VerifC12History", Ticks: [2]int{1, 1}, Needs: []string{"a plan was started", "waited for a started plan"}},
@@ -160,8 +161,20 @@ func eProp(id string, runs []eRun, outside []string) *Property {
 		if needs == nil {
 			needs = []string{"plan completed", "plan failed"}
 		}
-		p.Runs = append(p.Runs, Run{Dir: "engine", Pkg: "internal/execute/sm", Fn: r.fn, P: [2]int{r.pq, r.pt}, Ticks: [2]int{1, 2},
+		p.Runs = append(p.Runs, Run{Dir: "engine", Pkg: "internal/execute/sm", Fn: r.fn, P: [2]int{r.pq, r.pt}, Ticks: [2]int{2, 2},
 			SwitchOn: []string{"yield:enter", "yield:exit"}, Needs: needs})
 	}
 	return p
+}
+
+func init() {
+	// C08's clause "each attempt's result is durable before the next attempt begins" needs retries: the action-level
+	// harness (real actions.Runner, every outcome script) asserts it at every plugin entry.
+	properties["C08"].Runs = append(properties["C08"].Runs,
+		Run{Dir: "c05", Pkg: "internal/execute/sm/actions", Fn: "VerifC05Count", Needs: []string{"retry explored"}})
+	properties["C08"].OutsideClaim = append(properties["C08"].OutsideClaim, "attempt-level durability is checked on a single action with Retries <= R (R=2 quick, 3 thorough)")
+	// C01: the context passed to Start may be cancelled by the caller at any time without affecting execution.
+	properties["C01"].Runs = append(properties["C01"].Runs,
+		Run{Dir: "c12", Pkg: "internal/execute", Fn: "VerifC01Cancel", P: [2]int{1, 2}, Ticks: [2]int{1, 1}, SwitchOn: []string{"yield:enter", "yield:exit", "yield:w"},
+			Needs: []string{"caller cancelled while the plan was running", "block pre-check ran"}})
 }
